@@ -360,10 +360,10 @@ META["C18"] = {
 
 META["C20"] = {
     "LEVEL": "fault_enumeration",
-    "TIERS": {"quick": 285, "thorough": 285},
+    "TIERS": {"quick": 313, "thorough": 313},
     "WALLCAP": {"quick": 300, "thorough": 600},
     "EXHAUSTIVE": {"quick": True, "thorough": True},
-    "RULE": ("Complete enumeration of a table of 285 entries: valid call recipes for the constructors / entry points named in the "
+    "RULE": ("Complete enumeration of a table of 313 entries: valid call recipes for the constructors / entry points named in the "
              "property (Wiener and diffuse priors, transition(), exactness flags, Taylor-coefficient containers, constraint "
              "constructors, both losses, residual-based error estimate, lift orders, exponential priors, jet expansion, matrix-free "
              "ensemble size, three strategy/routine pairings) x dense / isotropic / block-diagonal x single-field corruptions (wrong "
@@ -373,7 +373,7 @@ META["C20"] = {
     "PROBES": ["raised", "controls_ok"],
     "ASSUMPTIONS": ["corruptions the documented API accepts (e.g. scalar exactness leaves for the dense model, a single-number "
                     "residual std for the isotropic model) are not in the table",
-                    "the table is finite and hand-written: it enumerates its own 285 entries, not 'every public entry point'"],
+                    "the table is finite and hand-written: it enumerates its own 313 entries, not 'every public entry point'"],
     "LEVEL_TEXT": "Fault enumeration: every (recipe, single-field corruption, factorisation) entry of a finite table is executed; "
                   "the oracle is 'raises at construction or first use, never numbers' and 'warns naming the remedy'.",
     "LEVEL_NOTE": "Trusted: the recipes in checks/c20.py; controls guard against recipes that fail for unrelated reasons.",
